@@ -19,7 +19,7 @@ Extraction "Model.ml"
   Description.description Description.annotation Description.trim_space
   OrderedMap.omap_script OrderedMap.oset_script
   PathParams.split_path PathParams.path_parameters PathParams.path_parameters_checked PathParams.register_paths
-  Core.scan_forest Core.expand Core.expand_full Core.named Catalog.build Catalog.iid_string
+  Core.scan_forest Core.scan_forest_with Core.expand Core.expand_full Core.named Catalog.build Catalog.iid_string
   TableCheck.find_bad TableCheck.table_ok ScannerTyping.gen_typing
   ScannerSem.scan_trace ScannerSem.scan ScannerTable.lexkind_idx ScannerTable.state_idx ScannerTable.state_name
   DirectiveTables.all_kinds DirectiveTables.kind_idx DirectiveTables.kind_keyword DirectiveTables.root_allowed_list DirectiveTables.http_method_list DirectiveTables.context_table DirectiveTables.adder_kinds DirectiveTables.response_code_lo DirectiveTables.response_code_hi.
